@@ -58,6 +58,8 @@ def _run_chunk(args):
     comp, cases = args
     mod = comp_module(comp)
     out = []
+    if hasattr(mod, "run_batch"):
+        return mod.run_batch(cases)
     for c in cases:
         try:
             r = mod.run(c)
@@ -96,6 +98,10 @@ def correspond(comp, recs):
         try:
             lines.append("%d %s" % (i, mod.encode(r)))
             idx.append(i)
+        except ValueError as e:
+            if str(e) == "skipped":
+                continue
+            res[i] = ["record cannot be encoded for the model: %s: %s" % (type(e).__name__, e)]
         except Exception as e:
             res[i] = ["record cannot be encoded for the model: %s: %s" % (type(e).__name__, e)]
     answers = proto.run_driver(lines)
@@ -127,17 +133,19 @@ def write_replay(pid, comp, rec, violated, mismatch, note):
 
 
 def known_match(known, pid, comp, rec, violated):
-    """A violation is a known finding only if an entry with status 'known' names this property,
-    this component and a classifier substring found in every violated clause."""
-    for k in known:
-        if k.get("status") != "known" or k.get("property") != pid:
-            continue
-        if k.get("component") not in (None, comp):
-            continue
-        cls = k.get("classifier", [])
-        if violated and all(any(c in v for c in cls) for v in violated):
-            return k
-    return None
+    """A violation is a known finding only if *every* violated clause contains a classifier string
+    of some entry with status 'known' for this property and component. Returns the matched entries."""
+    entries = [k for k in known if k.get("status") == "known" and k.get("property") == pid
+               and k.get("component") in (None, comp)]
+    if not entries or not violated:
+        return None
+    hit = []
+    for v in violated:
+        m = [k for k in entries if any(c in v for c in k.get("classifier", []))]
+        if not m:
+            return None
+        hit.extend(m)
+    return hit
 
 
 def shrink(mod, pid, rec):
@@ -287,9 +295,10 @@ def main_check(pid, tier, seed, write_evidence=True):
     n_viol = 0
     reported = set()
     for comp, r, v, m in violations:
-        k = known_match(known, pid, comp, r, v)
-        if k is not None:
-            known_hits.setdefault(k["id"], [k, 0])[1] += 1
+        ks = known_match(known, pid, comp, r, v)
+        if ks is not None:
+            for k in {e["id"]: e for e in ks}.values():
+                known_hits.setdefault(k["id"], [k, 0])[1] += 1
             continue
         import re as _re
         key = (comp, _re.sub(r"[-+]?[0-9][0-9.e+-]*", "#", v[0])[:50])
